@@ -2501,6 +2501,170 @@ func c11r20(c *Ctx, r *Report) {
 	r.floor("string constants with escape sequences in ansiState.ToString", n, 2)
 }
 
+// c10r10: the argument of a bound action (action.a) is what the user wrote in --bind; `change-nth(2|3|..)`
+// rotates it so that the next trigger takes the next expression. The transform-* variant of an action runs the
+// argument as a command and works on its OUTPUT — and the output must never be written back over the command
+// (D62: the rotation in the shared case body also ran for transform-nth: after the first trigger the binding's
+// command was replaced by the rotated output, which the next trigger handed to the shell).
+func c10r10(c *Ctx, r *Report) {
+	l := c.L
+	r.rule("C10-R10", "D (what may be written into a bound action's argument)", "P1",
+		"in Terminal.Loop and its closures, a store into action.a whose value is computed from the result of captureLine / captureLines / executeCommand is only reached under a test of action.t that excludes the action type under which that command was run",
+		"after the first trigger a transform-nth binding no longer runs its command: it runs the command's previous output as a shell command and selects the wrong fields")
+	loop := l.Fn("fzf", "(*Terminal).Loop")
+	act := l.Named("fzf", "action")
+	if loop == nil || act == nil {
+		r.unest("anchors", token.NoPos, nil, "anchors Terminal.Loop / action", "cannot resolve")
+		return
+	}
+	isCapture := func(call *ssa.Call) bool {
+		cal := call.Common().StaticCallee()
+		if cal == nil {
+			return false
+		}
+		switch cal.Name() {
+		case "captureLine", "captureLines", "executeCommand":
+			return true
+		}
+		return false
+	}
+	// the constant an `a.t == K` test compares with (K, polarity of "equal")
+	typeTest := func(atom ssa.Value) (int64, bool, bool) {
+		b, ok := atom.(*ssa.BinOp)
+		if !ok || (b.Op != token.EQL && b.Op != token.NEQ) {
+			return 0, false, false
+		}
+		for _, pr := range [][2]ssa.Value{{b.X, b.Y}, {b.Y, b.X}} {
+			k, isK := constIntVal(pr[1])
+			if !isK {
+				continue
+			}
+			if fld, base := loadedField(pr[0]); fld != nil && fld.Name() == "t" && base != nil {
+				if nn, ok := deref(base.Type()).(*types.Named); ok && nn.Obj() == act.Obj() {
+					return k, b.Op == token.EQL, true
+				}
+			}
+		}
+		return 0, false, false
+	}
+	n, fromOutput := 0, 0
+	for _, fn := range withClosures(loop) {
+		var pc *PathConds
+		k := 0
+		eachInstr(fn, func(in ssa.Instruction) {
+			st, ok := in.(*ssa.Store)
+			if !ok {
+				return
+			}
+			fld, base := fieldOf(st.Addr)
+			if fld == nil || fld.Name() != "a" || base == nil {
+				return
+			}
+			if nn, ok := deref(base.Type()).(*types.Named); !ok || nn.Obj() != act.Obj() {
+				return
+			}
+			n++
+			var caps []*ssa.Call
+			for w := range backwardSlice(st.Val, func(cc *ssa.CallCommon) bool { return true }, nil) {
+				if call, ok := w.(*ssa.Call); ok && isCapture(call) {
+					caps = append(caps, call)
+				}
+			}
+			if len(caps) == 0 {
+				return
+			}
+			fromOutput++
+			k++
+			if pc == nil {
+				pc = pathConds(fn)
+			}
+			// per disjunct: the type the action is known to have (two loads of a.t are the same variable: nothing
+			// stores action.t in the loop), nil if the disjunct contradicts itself
+			typeOf := func(dj []Lit) (eq *int64, neq map[int64]bool, feasible bool) {
+				neq = map[int64]bool{}
+				feasible = true
+				for _, lt := range dj {
+					kk, isEq, ok := typeTest(lt.Atom)
+					if !ok {
+						continue
+					}
+					if isEq == lt.Val {
+						if eq != nil && *eq != kk {
+							feasible = false
+						}
+						v := kk
+						eq = &v
+					} else {
+						neq[kk] = true
+					}
+				}
+				if eq != nil && neq[*eq] {
+					feasible = false
+				}
+				return
+			}
+			ran := map[int64]bool{}
+			known := true
+			for _, cp := range caps {
+				for _, dj := range pc.At(cp.Block()) {
+					eq, _, feas := typeOf(dj)
+					if !feas {
+						continue
+					}
+					if eq == nil {
+						known = false
+					} else {
+						ran[*eq] = true
+					}
+				}
+			}
+			excluded := known && len(ran) > 0
+			for _, dj := range pc.At(st.Block()) {
+				eq, neq, feas := typeOf(dj)
+				if !feas {
+					continue
+				}
+				ex := false
+				if eq != nil && !ran[*eq] {
+					ex = true
+				}
+				if eq == nil {
+					all := true
+					for kk := range ran {
+						if !neq[kk] {
+							all = false
+						}
+					}
+					ex = all
+				}
+				if !ex {
+					excluded = false
+				}
+			}
+			r.check(excluded, fmt.Sprintf("%s:store #%d into action.a of a value that can come from a command's output", relName(rootFn(fn)), k), st.Pos(), fn,
+				"reached only for the action type that did not run a command", "the output of the action's command can be written back over the command itself")
+		})
+	}
+	// the reasoning above identifies all loads of action.t of one action: nothing in the loop may assign it
+	tStores := 0
+	for _, fn := range withClosures(loop) {
+		eachInstr(fn, func(in ssa.Instruction) {
+			if st, ok := in.(*ssa.Store); ok {
+				if fld, base := fieldOf(st.Addr); fld != nil && fld.Name() == "t" && base != nil {
+					if nn, ok := deref(base.Type()).(*types.Named); ok && nn.Obj() == act.Obj() {
+						if _, isAlloc := addrRoot(base).(*ssa.Alloc); !isAlloc {
+							tStores++
+						}
+					}
+				}
+			}
+		})
+	}
+	r.check(tStores == 0, relName(loop)+":the type of a bound action is never reassigned", loop.Pos(), loop, "no store into action.t of an existing action", fmt.Sprintf("%d stores into action.t: two reads of it need not agree", tStores))
+	r.floor("stores into action.a in Terminal.Loop", n, 2)
+	r.floor("... of a value that may come from a command's output", fromOutput, 1)
+}
+
 // round8 runs the round-8 rules of a property (own and shared) after the property's older rules.
 func round8(c *Ctx, r *Report, prop string) {
 	switch prop {
@@ -2523,6 +2687,7 @@ func round8(c *Ctx, r *Report, prop string) {
 		c01r11(c, r) // bytes and runes trim the same blanks
 	case "C10":
 		c10r9(c, r)
+		c10r10(c, r)
 	case "C07":
 		c07r12(c, r)
 		c10r9(c, r)  // --accept-nth prints the fields the expression denotes
